@@ -391,6 +391,18 @@ func c06Call(kind string, p []int) graph.Graph {
 	panic("unknown family " + kind)
 }
 
+// c06FatDense builds g as a *DenseGraph whose edge bytes are arbitrary non-zero values (NewDense documents "> 0 = edge"):
+// a consumer that reads Edges directly instead of asking IsEdge must still see the same graph.
+func c06FatDense(g EG) *graph.DenseGraph {
+	vals := []byte{1, 2, 3, 128, 255, 7}
+	edges := make([]byte, g.N*(g.N-1)/2)
+	for _, e := range g.E {
+		idx := e[1]*(e[1]-1)/2 + e[0]
+		edges[idx] = vals[(idx*5+g.N+e[0])%len(vals)]
+	}
+	return graph.NewDense(g.N, edges)
+}
+
 // c06Build runs f under recover; nil graph = panicked.
 func c06Build(f func() graph.Graph) (g graph.Graph) {
 	defer func() {
@@ -537,7 +549,18 @@ func c06Run(args []string) Result {
 	both := func(g EG, f func(in graph.EditableGraph) graph.Graph, oor bool, def func(o c06Obs) string) string {
 		gd := c06Build(func() graph.Graph { return f(g.Dense()) })
 		gs := c06Build(func() graph.Graph { return f(g.Sparse()) })
+		gf := c06Build(func() graph.Graph { return f(c06FatDense(g)) })
 		out := finish(gd, oor, def)
+		if (gd == nil) != (gf == nil) {
+			fail("%s: dense input panics=%v, dense input with edge bytes > 1 panics=%v", kind, gd == nil, gf == nil)
+		} else if gf != nil {
+			if w := c06WF(gf, false); w != "" {
+				fail("%s on a DenseGraph with edge bytes > 1: returned graph is not well formed: %s", kind, w)
+			}
+			if of, ok := c06Observe(gf); !ok || of.String() != out {
+				fail("%s: result on a DenseGraph with edge bytes > 1 %s differs from the result on the equal 0/1 DenseGraph %s", kind, of.String(), out)
+			}
+		}
 		if (gd == nil) != (gs == nil) {
 			fail("%s: dense input panics=%v, sparse input panics=%v", kind, gd == nil, gs == nil)
 		} else if gs != nil {
@@ -712,9 +735,11 @@ func c06Run(args []string) Result {
 			}
 		}
 		ud, us := graph.EditableGraph(g.Dense()), graph.EditableGraph(g.Sparse())
+		uf := graph.EditableGraph(c06FatDense(g))
 		vd := c06Build(func() graph.Graph { return mk(ud) })
 		vs := c06Build(func() graph.Graph { return mk(us) })
-		if vd == nil || vs == nil {
+		vf := c06Build(func() graph.Graph { return mk(uf) })
+		if vd == nil || vs == nil || vf == nil {
 			fail("%s: constructing the view panicked", kind)
 			return ret("panic")
 		}
@@ -728,6 +753,12 @@ func c06Run(args []string) Result {
 			if os, ok := c06Observe(vs); !ok || os.String() != o {
 				fail("%s over a sparse graph %s differs from the view over the equal dense graph %s", kind, os.String(), o)
 			}
+			if w := c06WF(vf, false); w != "" {
+				fail("%s over a DenseGraph with edge bytes > 1 is not well formed: %s", kind, w)
+			}
+			if of, ok := c06Observe(vf); !ok || of.String() != o {
+				fail("%s over a DenseGraph with edge bytes > 1 %s differs from the view over the equal 0/1 graph %s", kind, of.String(), o)
+			}
 			outs = append(outs, o)
 		}
 		step()
@@ -735,9 +766,11 @@ func c06Run(args []string) Result {
 			if e.add {
 				ud.AddEdge(e.u, e.v)
 				us.AddEdge(e.u, e.v)
+				uf.AddEdge(e.u, e.v)
 			} else {
 				ud.RemoveEdge(e.u, e.v)
 				us.RemoveEdge(e.u, e.v)
+				uf.RemoveEdge(e.u, e.v)
 			}
 			cur = c06ApplyEG(cur, e)
 			step()
@@ -789,6 +822,7 @@ func c06Run(args []string) Result {
 			return Result{Out: "bad-op"}
 		}
 		gd, gs := graph.EditableGraph(g.Dense()), graph.EditableGraph(g.Sparse())
+		gf := graph.EditableGraph(c06FatDense(g))
 		cur := g.Adj()
 		outs := []string{}
 		observe := func(step string) bool {
@@ -803,6 +837,12 @@ func c06Run(args []string) Result {
 			}
 			if os, ok := c06Observe(gs); !ok || os.String() != o {
 				fail("tseq after %s: SparseGraph %s differs from DenseGraph %s", step, os.String(), o)
+			}
+			if w := c06WF(gf, false); w != "" {
+				fail("tseq on a DenseGraph with edge bytes > 1 after %s: not well formed: %s", step, w)
+			}
+			if of, ok := c06Observe(gf); !ok || of.String() != o {
+				fail("tseq after %s: DenseGraph with edge bytes > 1 %s differs from the 0/1 DenseGraph %s", step, of.String(), o)
 			}
 			outs = append(outs, o)
 			return o != "panic"
@@ -819,15 +859,17 @@ func c06Run(args []string) Result {
 				// documented panic, nothing may have been modified; the whole line is a panic
 				pd := guard(func() string { graph.SplitEdge(gd, i, j); return "ok" })
 				ps := guard(func() string { graph.SplitEdge(gs, i, j); return "ok" })
-				if pd != "panic" || ps != "panic" {
+				pf := guard(func() string { graph.SplitEdge(gf, i, j); return "ok" })
+				if pd != "panic" || ps != "panic" || pf != "panic" {
 					fail("SplitEdge(g, %d, %d) must panic", i, j)
 				}
 				return ret("panic", "rejected")
 			}
-			var pd, ps string
+			var pd, ps, pf string
 			if op == "c" {
 				pd = guard(func() string { graph.Contract(gd, i, j); return "ok" })
 				ps = guard(func() string { graph.Contract(gs, i, j); return "ok" })
+				pf = guard(func() string { graph.Contract(gf, i, j); return "ok" })
 				// expectation: i receives the neighbours of j, then row/column j is deleted
 				nb := make([]bool, n)
 				copy(nb, cur[j])
@@ -853,6 +895,7 @@ func c06Run(args []string) Result {
 			} else {
 				pd = guard(func() string { graph.SplitEdge(gd, i, j); return "ok" })
 				ps = guard(func() string { graph.SplitEdge(gs, i, j); return "ok" })
+				pf = guard(func() string { graph.SplitEdge(gf, i, j); return "ok" })
 				cur[i][j], cur[j][i] = false, false
 				for u := range cur {
 					cur[u] = append(cur[u], u == i || u == j)
@@ -861,8 +904,8 @@ func c06Run(args []string) Result {
 				last[i], last[j] = true, true
 				cur = append(cur, last)
 			}
-			if pd == "panic" || ps == "panic" {
-				fail("tseq %s panicked (dense: %s, sparse: %s)", step, pd, ps)
+			if pd == "panic" || ps == "panic" || pf == "panic" {
+				fail("tseq %s panicked (dense: %s, sparse: %s, dense with edge bytes > 1: %s)", step, pd, ps, pf)
 				return ret("panic")
 			}
 			if !observe(step) {
@@ -1036,7 +1079,7 @@ func c06DenseBytes(r *rand.Rand, g EG, wild bool) string {
 	for _, e := range g.E {
 		b[e[1]*(e[1]-1)/2+e[0]] = 1
 		if wild {
-			b[e[1]*(e[1]-1)/2+e[0]] = []int{1, 2, 7, 128, 255}[r.Intn(5)]
+			b[e[1]*(e[1]-1)/2+e[0]] = []int{1, 2, 3, 7, 128, 255}[r.Intn(6)]
 		}
 	}
 	s := fmt.Sprintf("c06 newdense %d", g.N)
